@@ -110,6 +110,8 @@ pub struct AvailableValuePass;
 impl GenerationPass for AvailableValuePass {
     fn run(cfg: &mut crate::cfg::Cfg) -> Result<(), Box<CfgError>> {
         let mut changed = true;
+        #[cfg(feature = "rva_verif")]
+        crate::verif::pass_begin("available", cfg.nodes().len());
 
         // Because of this type of algorithm, there might be a back branch,
         // like a loop, that has not been visited before the first in[n] is
@@ -121,6 +123,8 @@ impl GenerationPass for AvailableValuePass {
         let mut visited = HashSet::new();
         while changed {
             changed = false;
+            #[cfg(feature = "rva_verif")]
+            crate::verif::sweep();
             for node in cfg.iter() {
                 // in[n] = AND out[p] for all p in prev[n]
                 let in_reg_n = node
